@@ -338,6 +338,33 @@ def lift_l7(n, do_all, dae, msa, picks):
     return ok
 
 
+# ---- L6: merging/alignment keeps every pattern intact ---------------------------------------------------------
+MERGE_VOCAB = [('\\.', 1, 1, 'fixed'), ('a', 1, 1, 'fixed'), ('D', 1, 2)]
+
+
+def l6_merge(p1: List[int], p2: List[int], p3: List[int]) -> bool:
+    """
+    pre: 1 <= len(p1) <= P['l1'] and 1 <= len(p2) <= 3 and len(p3) <= (3 if P['three'] else 0)
+    pre: all(0 <= i < len(MERGE_VOCAB) for i in p1 + p2 + p3)
+    post: __return__
+    """
+    def build(idx):
+        out = []
+        for i in idx:
+            for k in range(len(MERGE_VOCAB)):
+                if i == k:
+                    out.append(MERGE_VOCAB[k])
+                    break
+        return out
+    pats = [build(p1), build(p2)] + ([build(p3)] if p3 else [])
+    import io
+    import contextlib
+    with contextlib.redirect_stdout(io.StringIO()):
+        out = X.merge_patterns([list(p) for p in pats])
+    # alignment may only regroup fragments: every input pattern comes back, fragment for fragment
+    return sorted(tuple(r) for r in out) == sorted(tuple(r) for r in pats)
+
+
 # ---- L8: the whole pipeline on tiny inputs ------------------------------------------------------------------
 E2E_ALPHABET = 'aB1^- '
 
@@ -384,7 +411,11 @@ def _all_matched(examples, **kw):
 def lift_char(c, *rest):
     ok = True
     for ex in ([c], ['a' + c, 'b' + c], [c + 'a', c + 'b'], [c + c, c], ['a' + c + 'b'], ['1' + c, '2' + c + c],
-               [c, 'a', '#' + c]):
+               [c, 'a', '#' + c],
+               # contexts in which a character left bare would act as a metacharacter
+               ['a' + c + '2}', 'b' + c + '2}'], ['a{2' + c, 'b{2' + c], ['x' + c + '1,3}'], ['x{1,3' + c],
+               ['a' + c + 'b]', 'c' + c + 'd]'], ['(a' + c, '(b' + c], ['a' + c + '?', 'b' + c + '?'],
+               ['a|' + c, 'b|' + c]):
         ok = ok and _all_matched(ex)
     return ok
 
@@ -468,6 +499,18 @@ def _obs():
                       param={'n': n, 'k': k, 'msa': msa}, timeout=to, tier=tier, lift='lift_l7',
                       stubs=['batch_extract idealised: its expressions match exactly its working set (what L1-L6 '
                              'give)', 'random -> FakeRandom (arbitrary subsets)']))
+    obs.append(Ob('L6', 'l6_merge', 'merge_patterns (alignment on shared fixed fragments, left and right) returns '
+                  'exactly the patterns it was given, fragment for fragment',
+                  '2 patterns of 1..2 and 1..3 fragments over a vocabulary of %d fragments (two fixed, one variable), '
+                  'symbolic indexes' % len(MERGE_VOCAB), param={'three': False, 'l1': 2}, timeout=600))
+    obs.append(Ob('L6', 'l6_merge', 'merge_patterns (alignment on shared fixed fragments, left and right) returns '
+                  'exactly the patterns it was given, fragment for fragment',
+                  '2 patterns of 1..3 fragments over a vocabulary of %d fragments' % len(MERGE_VOCAB),
+                  param={'three': False, 'l1': 3}, timeout=3000, tier='thorough'))
+    obs.append(Ob('L6', 'l6_merge', 'merge_patterns (alignment on shared fixed fragments, left and right) returns '
+                  'exactly the patterns it was given, fragment for fragment',
+                  '3 patterns of 1..3 fragments over a vocabulary of %d fragments' % len(MERGE_VOCAB),
+                  param={'three': True, 'l1': 2}, timeout=7000, tier='thorough'))
     e2e = [('portable', {}, 'quick'), ('perl', {'tag': True}, 'quick'),
            ('portable', {'variableLengthFrags': True}, 'quick'), ('grep', {'strip': True}, 'quick'),
            ('portable', {}, 'thorough'), ('perl', {'tag': True}, 'thorough'),
